@@ -11,20 +11,23 @@ CROOTS = ['splinetable_init', 'splinetable_free', 'readsplinefitstable', 'writes
           'ndsplineeval_deriv', 'splinetable_convolve', 'splinetable_permute']
 def cinter_ir(): return once('cinter_ir', lambda: build_ir('cinter', [VERIF + '/wrap/cinter.cpp', VERIF + '/wrap/estimate.cpp', REPO + '/src/cinter/splinetable.cpp', REPO + '/src/core/fitsio.cpp', REPO + '/src/core/convolve.cpp', REPO + '/src/core/bspline.cpp']))
 
-def build_harness():
+def build_objs():
+    d = scratch(); evalkit.layout_header(); c06.stream_layout()
+    c = os.path.join(d, 'cinter_sym.c'); m = ir2c(cinter_ir(), c, ['/^t_/', '/^e_/'] + CROOTS)
+    def cc(src):
+        o = os.path.join(d, 'cinter.%s.o' % os.path.basename(src))
+        run(['gcc', '-fwrapv', '-falign-functions=16', '-O1', '-DVR_SYM', '-DVM_MAXBLK=256', '-I' + VERIF + '/rt', '-I' + VERIF + '/models', '-I' + d, '-c', src, '-o', o]); return o
+    objs = pmap(cc, [c] + [VERIF + x for x in MODELS])
+    o = os.path.join(d, 'cinter.rt_sym.o'); run(['g++', '-std=c++17', '-O2', '-I' + VERIF + '/rt', '-c', VERIF + '/rt/rt_sym.cpp', '-o', o])
+    return objs, o, m
+
+def build_harness(harness='e2_cinter'):
     def build():
-        d = scratch(); evalkit.layout_header(); c06.stream_layout()
-        c = os.path.join(d, 'cinter_sym.c'); m = ir2c(cinter_ir(), c, ['/^t_/', '/^e_/'] + CROOTS)
-        objs = []
-        def cc(src):
-            o = os.path.join(d, 'cinter.%s.o' % os.path.basename(src))
-            run(['gcc', '-fwrapv', '-falign-functions=16', '-O1', '-DVR_SYM', '-DVM_MAXBLK=256', '-I' + VERIF + '/rt', '-I' + VERIF + '/models', '-I' + d, '-c', src, '-o', o]); return o
-        objs = pmap(cc, [c] + [VERIF + x for x in MODELS])
-        o = os.path.join(d, 'cinter.rt_sym.o'); run(['g++', '-std=c++17', '-O2', '-I' + VERIF + '/rt', '-c', VERIF + '/rt/rt_sym.cpp', '-o', o])
-        out = os.path.join(d, 'e2_cinter')
-        run(['g++', '-std=c++17', '-O1', '-DVR_SYM', '-I' + VERIF + '/rt', '-I' + VERIF + '/harness', '-I' + VERIF + '/models', '-I' + d, VERIF + '/harness/e2_cinter.cpp', '-o', out] + objs + [o, '-lgmpxx', '-lgmp', '-lm'])
+        d = scratch(); objs, o, m = once('cinter_objs', build_objs)
+        out = os.path.join(d, harness)
+        run(['g++', '-std=c++17', '-O1', '-DVR_SYM', '-I' + VERIF + '/rt', '-I' + VERIF + '/harness', '-I' + VERIF + '/models', '-I' + d, VERIF + '/harness/%s.cpp' % harness, '-o', out] + objs + [o, '-lgmpxx', '-lgmp', '-lm'])
         return out, m
-    return once('cinter_harness', build)
+    return once('cinter_harness_' + harness, build)
 
 AUX = [('A', 'v'), ('KEY1', 'hello~world'), ('Z9', '12'), ('NUMBER', '42')]
 def build_cases(tier):
